@@ -121,7 +121,9 @@ fn main() {
             engine::tick();
         }
         if let Some(fl) = failure {
-            if let Some(k) = known.find(id_static, &fl.signature) {
+            // only a case saved as the reproduction of a listed finding may be excused
+            let excused = if rf.expect == "known" { known.find(id_static, &fl.signature) } else { None };
+            if let Some(k) = excused {
                 if !rep.known_hits.iter().any(|(kf, _)| *kf == k.kf) {
                     rep.known_hits.push((k.kf.clone(), k.what.clone()));
                 }
